@@ -741,12 +741,40 @@ def _empty_batch_request(ck: Check, prog: Program) -> None:
     f = prog.func(V20 + '.BatchRequest.from_json')
     cfg = CFG(f, prog)
     jp = json_param(f)
-    ok = False
-    for c, e in raise_edges(cfg):
-        ckd = classify_cond(prog, f, c.ast)
-        if ckd.subject == jp and ((ckd.kind == 'len-cmp' and ckd.detail.replace(' ', '') in (f'len({jp})==0', f'len({jp})<1') and e.label == 'T')
-                                  or (ckd.kind == 'truthy' and (e.label == 'F') != ckd.negated)):
-            ok = True
+    # decided on reachability: with every test on the length / truth of the array resolved for the empty array, no `return` is reached
+    import re as _re
+    avoid = []
+    n_tests = 0
+    for c in cfg.nodes:
+        if c.kind != 'cond':
+            continue
+        e_, neg = c.ast, False
+        while isinstance(e_, ast.UnaryOp) and isinstance(e_.op, ast.Not):
+            e_, neg = e_.operand, not neg
+        truth = None
+        if isinstance(e_, ast.Compare) and len(e_.ops) == 1:
+            l_, r_ = e_.left, e_.comparators[0]
+            is_len = lambda x: isinstance(x, ast.Call) and dotted(x.func) == 'len' and len(x.args) == 1 and dotted(x.args[0]) == jp     # noqa: E731
+            num = lambda x: x.value if isinstance(x, ast.Constant) and isinstance(x.value, int) and not isinstance(x.value, bool) else None   # noqa: E731
+            a_, b_ = (0, num(r_)) if is_len(l_) else (num(l_), 0) if is_len(r_) else (None, None)
+            if a_ is not None and b_ is not None:
+                op = type(e_.ops[0])
+                table = {ast.Eq: a_ == b_, ast.NotEq: a_ != b_, ast.Lt: a_ < b_, ast.LtE: a_ <= b_, ast.Gt: a_ > b_, ast.GtE: a_ >= b_}
+                truth = table.get(op)
+        elif isinstance(e_, ast.Name) and e_.id == jp:
+            truth = False
+        elif isinstance(e_, ast.Call) and dotted(e_.func) == 'len' and len(e_.args) == 1 and dotted(e_.args[0]) == jp:
+            truth = False
+        if truth is None:
+            continue
+        n_tests += 1
+        taken = truth != neg
+        for ed in cfg.succ[c.id]:
+            if ed.label in ('T', 'F') and (ed.label == 'T') != taken:
+                avoid.append(ed)
+    reach = cfg.reachable(cfg.entry, avoid_edges=avoid, edge_ok=lambda ed: ed.label != 'exc')
+    rets = [n for n in cfg.stmt_nodes() if isinstance(n.ast, ast.Return) and n.id in reach]
+    ok = n_tests > 0 and not rets
     ck.ob('FIELD-GUARD', 'BatchRequest.from_json rejects the empty array', ok)
     if not ok:
         ck.finding('FIELD-GUARD', f.qualname, 'empty batch accepted', f.module.rel, f.node.lineno,
